@@ -65,7 +65,7 @@ theorem writeXmm_same {s s' : Machine} {r v} (h : writeXmm s r v = .ok s') :
 theorem addTrace_same {s s' : Machine} {i t v} (h : addTrace s i t v = .ok s') :
     SameCtl s s' ∧ s'.regs = s.regs ∧ s'.mem = s.mem ∧ s'.rflags = s.rflags := by
   unfold addTrace at h
-  split at h <;> simp only [reduceCtorEq, Out.ok.injEq] at h
+  simp only [Out.ok.injEq] at h
   subst h
   exact ⟨⟨rfl, rfl, rfl, rfl⟩, rfl, rfl, rfl⟩
 
